@@ -292,6 +292,22 @@ func RunCheck(cfg CheckConfig) int {
 	for a := range assumptions {
 		as = append(as, a)
 	}
+	// ghost updates are written by hand and are part of the trusted specification
+	for _, n := range names {
+		if fs := p.Spec.Funcs[n]; fs != nil {
+			for _, cs := range fs.EffectiveCases() {
+				for _, cl := range cs.Clauses {
+					if cl.Kind == "ghostat" || cl.Kind == "ghostset" {
+						t := cl.Text
+						if cl.Kind == "ghostat" {
+							t = fmt.Sprintf("at %s#%d: %s", cl.Block, cl.Ord, cl.Text)
+						}
+						as = append(as, "hand-written ghost update (trusted specification) in "+n+": "+t)
+					}
+				}
+			}
+		}
+	}
 	for _, t := range p.Spec.Trusted {
 		as = append(as, "trusted contract (assumed, body not verified): "+t)
 	}
